@@ -20,6 +20,7 @@ func init() {
 		ID:    "C39",
 		Level: "model_checking",
 		Rule: "explicit-state search: (A) the complete reachable state space of a real model.Node name tree under Add(k) / Add(existing k) / Remove(k) / Remove(absent k) over 8 keys a..h (quick: 7) starting from the empty tree, states canonicalised by their (limits, kids, keys) structure and rebuilt by replaying the shortest path on a fresh instance; after every transition: keys unique and sorted, every node's limits equal the min/max key below it, leaves hold at most maxEntries names unless read from a foreign tree, no intermediate node with a single or empty kid list, Value() and key listing agree with a sorted-map reference model; (B) the same edits through real documents: BFS over add/remove of 5 (thorough 6) attachments on a real PDF with write -> read after every transition, compared with the map model (listing and extracted bytes); " +
+			"(A') the same BFS from every foreign tree shape at once: all trees over up to 6 sorted keys (quick 5) with fan-out 2..4, leaves of 1..4 names and up to three levels, edits over the present keys and three absent ones to depth 3 (quick 2), judged by the property's invariants only; (B') each foreign shape written as a real document's EmbeddedFiles tree, every single edit (thorough: every ordered pair) through the attachment API, then write -> independent walk of the written tree (/Limits, order, uniqueness) -> strict re-read -> listing against the set model; " +
 			"non-trivial = a transition that changes the tree shape (split, merge, limit update) i.e. reaches a state with at least two levels",
 		Assume: []string{"Add of an existing key may keep or replace the value (the statement is silent); the model adopts what is observed"},
 		Run:    runC39,
@@ -70,6 +71,11 @@ func ntCanon(n *model.Node) string {
 
 // ntInvariant checks structure invariants; returns "" when they hold.
 func ntInvariant(root *model.Node, want map[string]string) string {
+	return ntInvariantOpt(root, want, false)
+}
+
+// ntInvariantOpt: foreign = the tree started from somebody else's shape; leaf sizes and fan-out are then not judged.
+func ntInvariantOpt(root *model.Node, want map[string]string, foreign bool) string {
 	keys := ntKeys(root)
 	if !sort.StringsAreSorted(keys) {
 		return fmt.Sprintf("keys not sorted: %v", keys)
@@ -113,11 +119,11 @@ func ntInvariant(root *model.Node, want map[string]string) string {
 				}
 				return ""
 			}
-			if len(ks) > 3 {
+			if len(ks) > 3 && !foreign {
 				return fmt.Sprintf("leaf with %d names (maxEntries 3)", len(ks))
 			}
 		} else {
-			if len(n.Kids) < 2 {
+			if len(n.Kids) < 2 && !foreign {
 				return fmt.Sprintf("intermediate node with %d kid(s)", len(n.Kids))
 			}
 			prevMax := ""
@@ -260,8 +266,12 @@ func runC39(r *core.R) {
 	r.Count("transitions", int64(transitions))
 	r.Note("bfs_depth", maxDepth)
 	r.Note("keys", nkeys)
+	// (A') the same edits from every foreign tree shape
+	c39foreign(r)
 	// (B) through real documents
 	c39docs(r)
+	// (B') foreign tree shapes as real documents
+	c39foreignDocs(r)
 	r.Note("traces_validated_against_impl", r.Counters["doc_transitions"])
 }
 
